@@ -161,9 +161,13 @@ def run_case(case):
     fails = []
     evals = 0
     nx = 0
-    for wname, R, W in (("bool", Boolean, [Boolean.one] * len(rules)), ("free", Poly, gram.poly_weights(len(rules)))):
+    nr = len(rules)
+    orders = [("bool", Boolean, [Boolean.one] * nr, None), ("free", Poly, gram.poly_weights(nr), None)]
+    if nr >= 2:
+        orders.append(("bool,reversed-rule-order", Boolean, [Boolean.one] * nr, list(range(nr))[::-1]))
+    for wname, R, W, order in orders:
         for name, fn, posts in checks(None):
-            g = gram.build(rules, R, W, V=V)
+            g = gram.build(rules, R, W, V=V, order=order)
             try:
                 out = fn(g)
             except CaseTimeout:
